@@ -32,8 +32,7 @@ def simulate(text, visited_desc, kind):
         lines[i] = ">" + lines[i]
         if kind == "edit_above":
             l0 = lines[0]
-            k = len(l0) - len(l0.lstrip(" \t"))
-            lines[0] = l0[:k] + "|" + l0[k:]
+            lines[0] = "|" + l0          # `gg0i|<esc>`: at column 0 of the first line
     out = "\n".join(lines)
     if term or text == "":
         out += "\n" if (term) else ""
@@ -116,20 +115,20 @@ def run(tier, seed, replay=None):
         if kind == "mark":
             av = [flag, pat, "-m", "i><esc>", "--end"]
         elif kind == "edit_above":
-            av = [flag, pat, "-m", "i><esc>", "-m", "ggI|<esc>", "--end"]
+            av = [flag, pat, "-m", "i><esc>", "-m", "gg0i|<esc>", "--end"]
         elif kind == "else":
-            av = [flag, pat, "-m", "i><esc>", "--else", "-m", "GA!<esc>", "-m", "ggI!<esc>", "--end"]
+            av = [flag, pat, "-m", "i><esc>", "--else", "-m", "GA!<esc>", "-m", "gg0i!<esc>", "--end"]
         else:
             av = ["--json", flag, pat, "-c", "name=l", "$", "-n", "--end"]
         return av, run_cli(av, stdin=text)
-    for (text, pat, pol, kind), (av, o) in zip(cases, pmap(cli, cases)):
+    # which lines match is the real regex crate's verdict (Python's re differs on combining marks under \w)
+    verdicts = batch(hook_server, [{"op": "regex", "pattern": pat, "haystacks": ref_lines(text)} for text, pat, pol, kind in cases])
+    for (text, pat, pol, kind), (av, o), vd in zip(cases, pmap(cli, cases), verdicts):
         case = {"text": text, "pattern": pat, "polarity": pol, "kind": kind, "argv": av}
         rl = ref_lines(text)
-        try:
-            rx = re.compile(pat)
-        except re.error:
+        if "matches" not in vd or len(vd["matches"]) != len(rl):
             continue
-        visited = [i for i in range(len(rl)) if bool(rx.search(rl[i])) == pol][::-1]
+        visited = [i for i in range(len(rl)) if bool(vd["matches"][i]) == pol][::-1]
         R.case(case, nontrivial=(0 < len(visited) < len(rl)))
         R.count("cli." + kind)
         if o["timeout"]:
@@ -160,5 +159,5 @@ def run(tier, seed, replay=None):
             if len(recs) != len(visited):
                 R.violation("one record per visited line expected: %d records, %d lines" % (len(recs), len(visited)), case, classes=["global.empty_line_field"])
     close_servers()
-    return R.finish(proof, rule="(1) generated texts (with/without final newline, empty lines, multi-byte): total_lines/line_bounds for every n and the Global/NotGlobal motion, model vs code, with graphemes from the real segmenter and regex verdicts from the real regex crate on the reference lines; the visited set is also compared with the reference (lines whose text matches == polarity, bottom-up); (2) real binary with marking commands inside -g/-v (insert at the cursor; edits above the visited line; --else markers; one JSON record per visit) against a Python simulation over the reference lines with Python's re on the shared regex subset. non-trivial = some but not all lines selected (a newline for geometry)",
+    return R.finish(proof, rule="(1) generated texts (with/without final newline, empty lines, multi-byte): total_lines/line_bounds for every n and the Global/NotGlobal motion, model vs code, with graphemes from the real segmenter and regex verdicts from the real regex crate on the reference lines; the visited set is also compared with the reference (lines whose text matches == polarity, bottom-up); (2) real binary with marking commands inside -g/-v (insert at the cursor; edits above the visited line; --else markers; one JSON record per visit) against a Python simulation over the reference lines with the real regex crate's verdict per line. non-trivial = some but not all lines selected (a newline for geometry)",
                     assumptions=["texts with CR-LF clusters are outside the claim: line_bounds compares graphemes with \"\\n\" while total_lines counts characters (counted, not judged)", "regex crate = Python re on the generated subset (each verdict is also fetched from the real crate for part 1)"])
